@@ -62,12 +62,14 @@ let parse_sop (w : string) : sop =
   | ["d"; j] -> SDis (nat_of_int (int_of_string j))
   | ["p"; j] -> SPut (nat_of_int (int_of_string j))
   | ["f"] -> SFlush
+  | ["r"; c] -> SRealloc (nat_of_int (int_of_string c))
   | _ -> failwith ("bad op " ^ w)
 
 let show_out = function
   | OSkip -> "skip"
   | OStep (o, r, ev, s) -> show_op o ^ " " ^ show_ret r ^ " " ^ show_ev ev ^ " # " ^ show_state s
   | OFault (o, f) -> "FAULT " ^ show_op o ^ " " ^ show_fault f
+  | ORealloc (c, ev, s) -> "realloc:" ^ string_of_int (ni c) ^ " done " ^ show_ev ev ^ " # " ^ show_state s
   | ODead -> "-"
 
 (* "<cap> ops" runs the model of the repaired cache.c; "<cap>u ops" the pinned one *)
@@ -84,6 +86,11 @@ let run_case (line : string) : string =
 (* ---- spec mode: judge dumps of the implementation ---- *)
 let field (kv : (string * string) list) k =
   try Stdlib.List.assoc k kv with Not_found -> failwith ("state without " ^ k)
+
+(* counters and indices of a dump; anything huge is garbage (e.g. an uninitialised member) *)
+let nat_of_int i =
+  if i < 0 || i > 1_000_000 then failwith ("value " ^ string_of_int i ^ " out of any plausible range (uninitialised member?)")
+  else Util.nat_of_int i
 
 let parse_ilist s = if s = "" then [] else
   Stdlib.List.map (fun x -> nat_of_int (int_of_string x)) (split_on ',' s)
@@ -202,6 +209,7 @@ let show_rout = function
   | CacheRing.ROSkip -> "skip"
   | CacheRing.ROStep (o, r, ev, s) -> show_op o ^ " " ^ show_ret r ^ " " ^ show_ev ev ^ " # " ^ show_rstate s
   | CacheRing.ROFault (o, f) -> "FAULT " ^ show_op o ^ " " ^ show_rfault f
+  | CacheRing.RORealloc (c, ev, s) -> "realloc:" ^ string_of_int (ni c) ^ " done " ^ show_ev ev ^ " # " ^ show_rstate s
   | CacheRing.RODead -> "-"
 
 let ring_case (line : string) : string =
